@@ -184,7 +184,8 @@ def notice_seq(draw):
 @st.composite
 def invoke_seq(draw):
     """Invocations of the public checkForUpdatesIfDue against a real cache file; time is advanced by shifting the
-    stored timestamps (only differences are used); lastChecked is kept fresh so that no fetch is attempted."""
+    stored timestamps (only differences are used); lastChecked is fresh in most steps (no release lookup) and older than 72 h in the others (a lookup is attempted and fails in
+    this network-less sandbox: the notice decision and its persistence must not depend on that)."""
     steps = []
     n = draw(st.integers(2, 6))
     for _ in range(n):
@@ -192,7 +193,8 @@ def invoke_seq(draw):
         lat = draw(st.sampled_from(["v1.2.0", "v1.3.0", "v2.0.0", "garbage", "v1.2.1"]))
         cur = draw(st.sampled_from(["1.2.0", "v1.2.0", "1.1.9", "unknown", "v2.0.0"]))
         env = draw(st.sampled_from([None, None, None, "BLOCH_NO_UPDATE_CHECK", "CI", "BLOCH_OFFLINE"]))
-        steps.append([dt, lat, cur, env])
+        # stale: the last release lookup is more than 72 h old, so a lookup is attempted (and fails: no network here)
+        steps.append([dt, lat, cur, env, draw(st.integers(0, 2)) == 0])
     return {"kind": "invoke", "steps": steps}
 
 
@@ -364,11 +366,13 @@ class C20(Check):
             T = 0
             last_virtual = -10 * H72
             crossed = False
-            for dt, lat, cur, env in case["steps"]:
+            for step in case["steps"]:
+                dt, lat, cur, env = step[:4]
+                stale = bool(step[4]) if len(step) > 4 else False
                 T += dt
                 R = int(upd.cmd("nowsec")["res"][1])
                 with open(cache_file, "w") as f:
-                    f.write(f"{R - 5}\n{lat}\n{R - (T - last_virtual)}\n")
+                    f.write(f"{R - (H72 + 8 * 3600 if stale else 5)}\n{lat}\n{R - (T - last_virtual)}\n")
                 before = open(cache_file, "rb").read()
                 for k in ("BLOCH_NO_UPDATE_CHECK", "CI", "BLOCH_OFFLINE"):
                     upd.cmd("unsetenv " + k)
@@ -379,6 +383,11 @@ class C20(Check):
                     return {"why": "checkForUpdatesIfDue crashed", "obs": r}
                 printed = "new" in r["printed"] and "version of Bloch" in r["printed"]
                 after = open(cache_file, "rb").read()
+                if stale and env is None and after.decode().split("\n")[:2] != before.decode().split("\n")[:2]:
+                    # the lookup unexpectedly succeeded (a network exists): the cached tag is no longer the one the model knows
+                    if stats is not None:
+                        stats.count("lookup_succeeded_inconclusive")
+                    return None
                 rl, rc_ = ref_semver(lat), ref_semver(cur)
                 newer = rl[0] and rc_[0] and rl[1] > rc_[1]
                 due = T - last_virtual >= H72
@@ -401,7 +410,8 @@ class C20(Check):
                 elif after != before:
                     return {"why": "cache file changed although nothing was announced"}
             if stats is not None:
-                stats.record(case, crossed, sample=case, tags=["invoke_sequences"] + (["crosses_72h"] if crossed else []))
+                stats.record(case, crossed, sample=case, tags=["invoke_sequences"] + (["crosses_72h"] if crossed else []) +
+                             (["stale_lookup_step"] if any(len(x) > 4 and x[4] for x in case["steps"]) else []))
             # cache round trip
             r = upd.cmd(f"savecache 1700000000 1700000500 {hx('v9.8.7')}")
             r = upd.cmd("loadcache")
